@@ -14,19 +14,27 @@ package frugal
 
 //@ func lib.v0ProtocolMarshaler.readPairs
 //@   requires 0 <= start && end <= len(buff)
-//@   ensures err == nil ==> result != nil
+//@   ensures err == nil ==> result != nil && fresh(result)
 //@   ensures err != nil ==> result == nil
+//@   ensures err == nil && start <= end ==> hsum(result) <= end - start      // distinct names never take more room than the bytes read
 //@   modifies alloc
-//@   loop 0 invariant start0 <= i && (i <= end || i == start0) && end == end0 && buff == buff0 && headers != nil
+//@   loop 0 invariant start0 <= i && (i <= end || i == start0) && end == end0 && buff == buff0 && headers != nil && fresh(headers)
+//@   loop 0 invariant hsum(headers) <= i - start0
 //@   loop 0 decreases end - i
 
 //@ func lib.v0ProtocolMarshaler.unmarshalHeadersFromFrame
-//@   ensures err == nil ==> result != nil && len(frame) >= 4 && 0 <= u32be(frame, 0) && u32be(frame, 0) <= len(frame) - 4
+//@   ensures err == nil ==> result != nil && fresh(result) && len(frame) >= 4 && 0 <= u32be(frame, 0) && u32be(frame, 0) <= len(frame) - 4
+//@   ensures err == nil && len(frame) <= 2147483647 ==> hsum(result) <= u32be(frame, 0)
 //@   ensures err != nil ==> result == nil
 //@   modifies alloc
 
+// The stream reader takes exactly the 4-byte size and then the announced number of bytes from the
+// reader: what follows (the Thrift payload) is left untouched.
 //@ func lib.v0ProtocolMarshaler.unmarshalHeaders
 //@   ensures err == nil ==> result != nil
+//@   ensures err == nil ==> consumed(reader) == old(consumed(reader)) + 4 + size && size >= 0
+//@   ensures err == nil ==> ncalls("io.ReadFull") == 2
+//@   ensures err == nil ==> len(callarg("io.ReadFull", 0, 1)) == 4 && len(callarg("io.ReadFull", 1, 1)) == size
 //@   ensures err != nil ==> result == nil
 //@   modifies alloc, ghost(consumed, reader)
 
@@ -149,6 +157,7 @@ package frugal
 
 // The headers go to the transport in one Write; a size-limit error from it is returned unchanged.
 //@ func lib.FProtocol.writeHeader
+//@   requires hsum(headers) <= 2147483642                  // assumption: less than 2 GiB of headers
 //@   ensures ncalls("io.Writer.Write") == 1
 //@   ensures tooLargeErr(callret("io.Writer.Write", 0, 1)) ==> result == callret("io.Writer.Write", 0, 1)
 //@   ensures callret("io.Writer.Write", 0, 1) != nil ==> result != nil
@@ -265,3 +274,43 @@ package frugal
 // ---- registry (C01, C06) ------------------------------------------------------------------------------
 
 //@ guard lib.fRegistryImpl.mu protects channels
+
+// ---- header encoding (C04) ------------------------------------------------------------------------------
+// hsum(m) is the documented size of the header block: for every pair a 4-byte name length, the name,
+// a 4-byte value length and the value.
+
+//@ fold hsum(k string, v string) = 8 + len(k) + len(v)
+
+//@ func lib.v0ProtocolMarshaler.calculateHeaderSize
+//@   requires hsum(headers) <= 2147483647                  // assumption: less than 2 GiB of headers
+//@   ensures result == hsum(headers)
+//@   loop 0 invariant size == hsum(headers, visited(headers)) && headers == headers0
+
+//@ func lib.v0ProtocolMarshaler.marshalHeaders
+//@   requires hsum(headers) <= 2147483642                  // assumption: less than 2 GiB of headers
+//@   ensures len(result) == hsum(headers) + 5 && result != nil && fresh(result)
+//@   ensures result[0] == 0 && u32be(result, 1) == hsum(headers)
+//@   modifies alloc
+//@   loop 0 invariant i == 5 + hsum(headers, visited(headers)) && headers == headers0 && len(buff) == hsum(headers) + 5 && buff != nil
+//@   loop 0 invariant buff[0] == 0 && u32be(buff, 1) == hsum(headers)
+
+// Re-framing: the new frame carries the merged headers followed by the untouched payload, and its size
+// field counts everything after itself.
+//@ func lib.v0ProtocolMarshaler.addHeadersToFrame
+//@   requires len(frame) >= 5
+//@   requires hsum(headers) + len(frame) <= 2147483000                   // assumption: less than 2 GiB in total
+//@   ensures err == nil ==> result != nil && len(result) >= 9 && u32be(result, 0) == len(result) - 4
+//@   modifies alloc
+//@   loop 0 invariant existing != nil && fresh(existing) && headers == headers0 && frame == frame0
+//@   loop 0 invariant dom(headers) == loopentry(dom(headers)) && vals(headers) == loopentry(vals(headers))
+//@   loop 0 invariant hsum(existing) <= loopentry(hsum(existing)) + hsum(headers, visited(headers))
+
+//@ iface lib.protocolMarshaler.addHeadersToFrame
+//@   same_as lib.v0ProtocolMarshaler.addHeadersToFrame
+
+//@ func lib.addHeadersToFrame
+//@   requires hsum(headers) + len(frame) <= 2147483000
+
+//@ func lib.prependFrameSize
+//@   ensures len(result) == len(buf) + 4 && u32be(result, 0) == len(buf) % 4294967296
+//@   modifies alloc
